@@ -1,5 +1,6 @@
 (** C06 — STUN framing and attribute lookup agree with the RFC grammar.  Statements only. *)
 From Coq Require Import ZArith List Bool.
+From Nice Require Stun.ErrorCodeProofs.
 From Nice Require Import Base.Bytes Stun.StunModel Stun.StunProofs1 Stun.StunProofs2.
 Import ListNotations.
 Local Open Scope Z_scope.
@@ -46,3 +47,14 @@ Example C06_nonvacuous :
           f_ignore_creds := false; f_no_ind_auth := false; f_force_validater := false; f_no_aligned := false; f_consent := false |}
        m 37 = Ok (Some (32, 0)).
 Proof. vm_compute. repeat split; reflexivity. Qed.
+
+(** ERROR-CODE (RFC 5389 15.6): an accepted code comes from an attribute of at least four bytes, class = low three bits of its third octet (3..6),
+    number = fourth octet (0..99); the five reserved bits of the class octet are ignored *)
+Theorem C06_error_code_decoding : forall c buf code,
+  find_error c buf = Ok (FOk code) ->
+  exists o l b2 b3, find c buf A_ERROR_CODE = Ok (Some (o, l)) /\ 4 <= l /\ rd buf (o + 2) = Some b2 /\ rd buf (o + 3) = Some b3 /\
+    3 <= Z.land b2 7 <= 6 /\ b3 <= 99 /\ code = Z.land b2 7 * 100 + b3.
+Proof. exact Nice.Stun.ErrorCodeProofs.find_error_decodes. Qed.
+
+Theorem C06_error_class_ignores_reserved_bits : forall b2 r, 0 <= b2 < 8 -> 0 <= r < 32 -> Z.land (b2 + 8 * r) 7 = b2.
+Proof. exact Nice.Stun.ErrorCodeProofs.error_class_ignores_reserved_bits. Qed.
